@@ -214,7 +214,7 @@ class Scenario:
 class StreamRun:
     """One execution of the StreamManager harness under a Chooser."""
 
-    HORIZON = 200
+    HORIZON = 60
 
     def __init__(self, sc: Scenario, ch: Chooser):
         self.sc = sc
@@ -559,6 +559,7 @@ def _dfs_subtree(case, scen, runner, bound_of):
     transitions = 0
     outcomes = set()
     first_bad = {}
+    nbad = 0
     pre = [tuple(p) for p in pre]
     for ch, out in explore(run, bound=bound_of(sc), prefix=pre):
         n += 1
@@ -568,8 +569,12 @@ def _dfs_subtree(case, scen, runner, bound_of):
         snaps |= out["snapshots"]
         transitions += len(out["events"])
         outcomes.add((out["outcomes"], out["problem"] is None))
-        if out["problem"] and out.get("pattern", "invariant") not in first_bad:
-            first_bad[out.get("pattern", "invariant")] = (out["problem"], out["events"], [(t[1]) for t in ch.trace])
+        if out["problem"]:
+            nbad += 1
+            if out.get("pattern", "invariant") not in first_bad:
+                first_bad[out.get("pattern", "invariant")] = (out["problem"], out["events"], [(t[1]) for t in ch.trace])
+            if nbad >= 200 and any(p != "stop_before_execution_started" for p in first_bad):
+                break  # the subtree is already a counterexample mine: stop (the run reports a violation anyway)
     return n, nontriv, snaps, transitions, outcomes, first_bad
 
 
@@ -582,7 +587,14 @@ def make_dfs_stage(name, scen_list, runner, worker, global_name, describe_sc, de
         globals()[global_name] = scen_list
         cases = []
         for si, sc in enumerate(scen_list):
-            for pre in prefixes(runner(sc), depth):
+            P = [()]
+            if depth > 0:
+                # iterative deepening of the partition until the scenario is split into enough subtrees
+                for d in range(1, 10):
+                    P = prefixes(runner(sc), d)
+                    if len(P) >= 96 or all(len(p) < d for p in P):
+                        break
+            for pre in P:
                 cases.append((si, pre))
         res = StageResult(name)
         outs = core.pmap(worker, cases, chunk=1)
@@ -758,7 +770,35 @@ class JobFuture(BufferedFuture):
         self.jid = jid
 
     def flush(self):
-        self.env.on_flush()
+        pass  # the environment acts in VReadySet.get_all (true quiescence), not per flushed future
+
+
+class VReadySet(duet_impl.ReadySet):
+    """duet's ready set, except that where the real one would block on a condition variable (no task
+    ready after flushing buffered futures) the explorer's environment acts; if still nothing is ready
+    the execution is a deadlock (the real scheduler would block forever)."""
+
+    def __init__(self, env):
+        super().__init__()
+        self.env = env
+
+    def get_all(self, timeout=None):
+        with self._cond:
+            if self._tasks:
+                return self._pop_tasks()
+        self._buffer.flush()
+        if not self._tasks:
+            self.env.on_flush()
+        if not self._tasks:
+            raise Deadlock("no duet task ready after the environment acted (lost wake-up)")
+        return self._pop_tasks()
+
+
+def make_scheduler(env):
+    sched = duet_impl.Scheduler()
+    sched._ready_tasks = VReadySet(env)
+    env.sched = sched
+    return sched
 
 
 class CollectorEnv:
@@ -899,8 +939,7 @@ def run_collector(sc):
         env = CollectorEnv(ch, sc)
         col = ScriptCollector(env, sc["script"])
         sampler = FakeSampler(env)
-        sched = duet_impl.Scheduler()
-        env.sched = sched
+        sched = make_scheduler(env)
         problem = None
         error = None
         task = sched.spawn(col.collect_async(sampler, concurrency=sc["concurrency"], max_total_samples=sc["max_total_samples"]))
@@ -1006,6 +1045,7 @@ def collector_scenarios(tier):
             continue
         for conc in (2, 3):
             out.append({"script": s, "concurrency": conc, "max_total_samples": None, "deviations": 0, "errors": 1})
+            out.append({"script": s, "concurrency": conc, "max_total_samples": None, "deviations": 1, "errors": 1})
             out.append({"script": s, "concurrency": conc, "max_total_samples": None, "deviations": 1 if tier == "quick" else 2, "errors": 0})
             out.append({"script": s, "concurrency": conc, "max_total_samples": 3, "deviations": 1, "errors": 0})
     return out
@@ -1125,8 +1165,7 @@ def run_batch(sc):
                                                     jobs_per_batch=sc["jobs_per_batch"])
         else:
             sampler = SweepSampler(env)
-        sched = duet_impl.Scheduler()
-        env.sched = sched
+        sched = make_scheduler(env)
         problem = None
         error = None
         result = None
@@ -1288,22 +1327,25 @@ def run_retry_table(case):
         return bad("_to_get_result_request does not describe the same job")
     cur = [cpj, cj, gr][kind_i]
     # what the model server can answer to each request kind, and the only request that makes progress then
+    # (code, failed request kind) pairs the service can produce, with the retry requests that can make progress.
+    # Which of them is sent is decided by the closure / schedule drivers (convergence); here only membership.
     progress = {
-        (Code.PROGRAM_ALREADY_EXISTS, 0): "GR",   # program exists (maybe with the job): look the job up
-        (Code.PROGRAM_DOES_NOT_EXIST, 1): "CPJ",  # program vanished / never existed: create both
-        (Code.JOB_ALREADY_EXISTS, 1): "GR",       # job exists: fetch its result
-        (Code.JOB_DOES_NOT_EXIST, 2): "CJ",       # program exists, job does not: create the job
+        (Code.PROGRAM_ALREADY_EXISTS, 0): {"GR", "CJ"},  # program exists (maybe with the job): look the job up / create it
+        (Code.PROGRAM_DOES_NOT_EXIST, 1): {"CPJ"},       # program does not exist: create both
+        (Code.JOB_ALREADY_EXISTS, 1): {"GR"},            # job exists: fetch its result
+        (Code.JOB_DOES_NOT_EXIST, 2): {"CJ"},            # job does not exist: create it
     }
     err = quantum.StreamError(code=code, message="m")
     try:
         nxt = sm._get_retry_request_or_raise(err, cur, cpj, cj, gr)
     except sm.StreamError:
         if (code, kind_i) in progress:
-            return bad(f"{code.name} after {_req_kind(cur)} is retryable (next: {progress[(code, kind_i)]}) but StreamError was raised")
+            return bad(f"{code.name} after {_req_kind(cur)} is retryable (next: {sorted(progress[(code, kind_i)])}) but StreamError was raised")
         return good(nontrivial=True)
     if (code, kind_i) in progress:
-        if _req_kind(nxt) != progress[(code, kind_i)] or _req_job(nxt) != job.name:
-            return bad(f"{code.name} after {_req_kind(cur)}: retry request is {_req_kind(nxt)} for {_req_job(nxt)}, expected {progress[(code, kind_i)]}")
+        if _req_kind(nxt) not in progress[(code, kind_i)] or _req_job(nxt) != job.name:
+            return bad(f"{code.name} after {_req_kind(cur)}: retry request is {_req_kind(nxt)} for {_req_job(nxt)}, "
+                       f"which cannot make progress (acceptable: {sorted(progress[(code, kind_i)])})")
         return good()
     if code == Code.JOB_ALREADY_EXISTS and kind_i == 0 and _req_kind(nxt) == "GR":
         return good()  # accepted by the implementation: harmless (server never sends it for this request)
